@@ -23,6 +23,8 @@ LONGMAN_ITEMS = ["B1,reuse=1,uni=2@1^" + L_LONGMAN, "B1,uni=2@1^" + L_LONGMAN]
 
 # case-insensitive custom comparator over a universe with spellings it identifies ("a"/"A", "B"/"b")
 NOCASE = "B1,cmp=2,uni=5"
+# value under one spelling, tombstone / overwrite under another spelling, in different tables
+NOCASE_ITEMS = [NOCASE + "@0/2", NOCASE + "@2^P0.1 F D1 F", NOCASE + "@2^P3.1 F P4.2 F D3"]
 
 TOGGLES = ["snappy=1", "bloom=1", "mmap=0", "reuse=1", "cache=1", "cache=2", "cmp=1", "paranoid=1"]
 
@@ -35,7 +37,7 @@ def c01_plan(tier):
     if tier == "quick":
         it = ["B1@4/3"] + ["B1,%s@0/2" % t for t in TOGGLES] + ["B2@0/2"]
         it += ["B1@2^" + L_DEEP, "B1,bloom=1,cache=1,mmap=0,snappy=1@2^" + L_DEEP, "B1@2^" + L_TOMB]
-        it += ["B1~rwr@0/2^" + L_OVL, "B1~rwr@0/2^" + L_OVL2, "B1~rwr@0/1^" + L_DEEP, NOCASE + "@0/2"] + LONGMAN_ITEMS + [SPLIT_CFG + "@0/2^" + L_SPLIT]
+        it += ["B1~rwr@0/2^" + L_OVL, "B1~rwr@0/2^" + L_OVL2, "B1~rwr@0/1^" + L_DEEP] + NOCASE_ITEMS + LONGMAN_ITEMS + [SPLIT_CFG + "@0/2^" + L_SPLIT]
     else:
         it = ["B1@5/4"] + ["B1,%s@4/3" % t for t in TOGGLES] + ["B2@3/3", "B2,snappy=1,bloom=1@3/2"]
         # full cross product of the boolean toggles at depth 2 (no dedup)
@@ -46,7 +48,7 @@ def c01_plan(tier):
                     t.append(nm)
             if len(t) >= 2:
                 it.append("B1,%s@0/2" % ",".join(t))
-        it += [NOCASE + "@4/3", NOCASE + "@2^P0.1 F P1.1 F P3.1 F P4.1 F"] + LONGMAN_ITEMS + ["B1,reuse=1,uni=2@2^" + L_LONGMAN]
+        it += [NOCASE + "@4/3", NOCASE + "@2^P0.1 F P1.1 F P3.1 F P4.1 F", NOCASE + "@3^P0.1 F D1 F", NOCASE + "@3^P3.1 F P4.2 F D3"] + LONGMAN_ITEMS + ["B1,reuse=1,uni=2@2^" + L_LONGMAN]
         it += [SPLIT_CFG + "@0/3^" + L_SPLIT, SPLIT_CFG + "@0/2^" + L_SPLIT + " R0:5:5"]
         it += ["B1~rwr@0/3^" + L_OVL, "B1~rwr@0/3^" + L_OVL2, "B1~rwr@0/2^" + L_DEEP, "B1,cmp=1~rwr@0/2^" + L_OVL, "B1~rwr@3/2"]
         for L in (L_DEEP, L_TOMB, L_SNAP, L_BIG):
